@@ -150,38 +150,62 @@ def print_assumptions(module, theorems, tag):
 
 
 def prove(ctx, coq_dir, extra_targets=()):
-    """build <dir>/Properties.vo (+Extract.vo); return proof status dict"""
+    """translate (coq/Gen/*.v from /repo's current tree), then build <dir>/Properties.vo (+ <dir>/GenTie.vo, the
+    obligations that tie the model to the generated facts, + Extract.vo); return proof status dict"""
     t0 = time.time()
+    import translate as _tr
+    tr_res = _tr.translate()
     props_v = "%s/Properties.v" % coq_dir
-    targets = ["%s/Properties.vo" % coq_dir] + list(extra_targets)
+    tie_v = "%s/GenTie.v" % coq_dir
+    has_tie = os.path.exists(os.path.join(COQ, tie_v))
+    targets = ["%s/Properties.vo" % coq_dir] + (["%s/GenTie.vo" % coq_dir] if has_tie else []) + list(extra_targets)
     clean = ctx["tier"] == "thorough"
     rc, out = coq_make(targets, clean=clean)
     thms = theorem_names(props_v)
-    vo = os.path.join(COQ, coq_dir, "Properties.vo")
-    built = rc == 0 and os.path.exists(vo) and \
-        os.path.getmtime(vo) >= os.path.getmtime(os.path.join(COQ, props_v))
-    status = {"obligations": len(thms), "discharged": 0, "theorems": thms, "broken": [],
-              "assumptions": {}, "forbidden": [], "make_rc": rc, "log_tail": ""}
+    tie_thms = theorem_names(tie_v) if has_tie else []
+    def up_to_date(target):
+        """make -q: exit 0 iff the target exists and nothing it depends on is newer (a dependency that failed to
+        compile leaves a stale .vo behind, which must not count)"""
+        return rc == 0 or sh("make -q %s" % target, cwd=COQ, timeout=300)[0] == 0
+    built = up_to_date("%s/Properties.vo" % coq_dir)
+    tie_built = has_tie and up_to_date("%s/GenTie.vo" % coq_dir)
+    status = {"obligations": len(thms) + len(tie_thms), "discharged": 0, "theorems": thms + tie_thms, "broken": [],
+              "assumptions": {}, "forbidden": [], "make_rc": rc, "log_tail": "",
+              "translator": [{"file": n, "ok": ok, "note": msg[:300]} for n, ok, msg in tr_res],
+              "tie_theorems": tie_thms}
     forb = forbidden_scan(["Common", "Gen", coq_dir])
     status["forbidden"] = forb
+    n_ok = 0
     if built:
         arc, ass, aout = print_assumptions("%s.Properties" % coq_dir, thms, coq_dir)
-        status["assumptions"] = ass
-        ok = [t for t in thms if t in ass]
-        status["discharged"] = len(ok) if not forb else 0
-        status["broken"] = [t for t in thms if t not in ass]
+        status["assumptions"].update(ass)
+        n_ok += len([t for t in thms if t in ass])
+        status["broken"] += [t for t in thms if t not in ass]
         if arc != 0:
             status["log_tail"] = aout[-2000:]
     else:
-        status["broken"] = broken_from_log(out, coq_dir, thms)
+        status["broken"] += broken_from_log(out, coq_dir, thms)
         status["log_tail"] = out[-3000:]
+    if has_tie:
+        if tie_built:
+            arc, ass, aout = print_assumptions("%s.GenTie" % coq_dir, tie_thms, coq_dir + "_tie")
+            status["assumptions"].update(ass)
+            n_ok += len([t for t in tie_thms if t in ass])
+            status["broken"] += [t for t in tie_thms if t not in ass]
+        else:
+            why = [("%s: %s" % (n, msg[:200])) for n, ok, msg in tr_res if not ok]
+            status["broken"] += ["%s (tie to the regenerated coq/Gen facts%s)" % (
+                ", ".join(tie_thms) or tie_v, "; " + "; ".join(why) if why else "")]
+            if built:
+                status["log_tail"] = out[-3000:]
+    status["discharged"] = n_ok if not forb else 0
     if forb:
         status["broken"] = status["broken"] or ["<forbidden construct>"]
-    status["checker_cmd"] = "make -C coq -k -j%d %s  (coqc 8.16.1, full .vo build; clean=%s)" % (
+    status["checker_cmd"] = "tools/translate.py (coq/Gen/*.v from /repo) ; make -C coq -k -j%d %s  (coqc 8.16.1, full .vo build; clean=%s)" % (
         NCPU, " ".join(targets), clean)
     if ctx["tier"] == "thorough" and built and os.environ.get("VERIF_COQCHK", "1") == "1":
-        crc, cout = sh("coqchk -o -silent -Q %s IoraVerif IoraVerif.%s.Properties" % (COQ, coq_dir),
-                       timeout=900)
+        mods = "IoraVerif.%s.Properties" % coq_dir + (" IoraVerif.%s.GenTie" % coq_dir if tie_built else "")
+        crc, cout = sh("coqchk -o -silent -Q %s IoraVerif %s" % (COQ, mods), timeout=900)
         status["coqchk_rc"] = crc
         status["coqchk_tail"] = cout[-1500:]
         if crc != 0:
@@ -408,6 +432,7 @@ def write_evidence(ctx, proof, cov, wall, violations, assumptions_extra=()):
             "%s: %s" % (k, v) for k, v in sorted(proof.get("assumptions", {}).items())),
         "extraction: ExtrOcamlBasic only (bool/option/list/prod/unit/sumbool mapped to OCaml's), no Extract Constant; OCaml 4.13.1 ocamlopt; driver ocaml/%s_driver.ml + ocaml/conv.ml.inc" % pid.lower(),
         "correspondence harness harness/%s_impl.cpp compiled against /repo/include of the current tree (g++ -std=c++17, ASan+UBSan) and tools/props/%s.py (generator, canonicaliser, diff)" % (pid.lower(), pid.lower()),
+        "translator tools/translate.py: coq/Gen/Constants.v (values printed by harness/gen_constants.cpp compiled against /repo/include) and coq/Gen/RingProto.v (atomic accesses, memory orders and slot accesses of every ring-buffer method, from clang's JSON AST) are regenerated on every run; the theorems of coq/%s/GenTie.v (if present) tie the model to them" % pid,
     ] + list(ctx.get("trusted_extra", []))
     coverage = {
         "obligations": proof["obligations"],
@@ -417,6 +442,8 @@ def write_evidence(ctx, proof, cov, wall, violations, assumptions_extra=()):
         "theorems": proof.get("theorems", []),
         "broken": proof.get("broken", []),
         "forbidden_constructs": proof.get("forbidden", []),
+        "translator": proof.get("translator", []),
+        "tie_theorems": proof.get("tie_theorems", []),
     }
     if "coqchk_rc" in proof:
         coverage["coqchk_rc"] = proof["coqchk_rc"]
